@@ -37,6 +37,7 @@ pub const ELISION_IN_START_RULE: &str = "E032";
 pub const REDEFINE_AS_PART: &str = "E033";
 pub const START_AS_PART: &str = "E034";
 pub const CREATE_NODE_IN_ORDERED_CHOICE: &str = "E035";
+pub const RETURN_IN_ORDERED_CHOICE: &str = "E036";
 
 pub const UNUSED_RULE: &str = "W001";
 pub const UNUSED_TOKEN: &str = "W002";
@@ -89,6 +90,7 @@ pub trait LanguageErrors {
     fn redefine_as_part(span: &Span) -> Self;
     fn start_as_part(span: &Span) -> Self;
     fn create_node_in_ordered_choice(span: &Span) -> Self;
+    fn return_in_ordered_choice(span: &Span) -> Self;
 }
 
 impl LanguageErrors for Diagnostic {
@@ -447,6 +449,17 @@ impl LanguageErrors for Diagnostic {
             .with_note(
                 "note: the inserted node cannot be removed when the alternative is abandoned, \
                  use a node marker inside of the alternative or commit before the node creation",
+            )
+    }
+
+    fn return_in_ordered_choice(span: &Span) -> Self {
+        Diagnostic::error()
+            .with_code(RETURN_IN_ORDERED_CHOICE)
+            .with_message("return could be used inside of ordered choice")
+            .with_label(Label::primary((), span.clone()))
+            .with_note(
+                "note: the rule cannot be left from an alternative that can still be abandoned, \
+                 commit before the return or move it out of the ordered choice",
             )
     }
 }
